@@ -262,6 +262,8 @@ def run(ctx, rep, tier):
     for kw, shape in (("-name", "unary"), ("-fprint", "unary"), ("-xattr-match", "str"), ("-fprintf", "format")):
         for quote in ('"', "'"):
             for k in ((1, 2) if q else (1, 2, 3, 4)):
+                if shape == "unary" and k > 3:
+                    continue          # four characters can hold a blank and a whole further primary (' -ls'): a legitimate Ok
                 cs = [sym_char() for _ in range(k)]
                 if shape == "format":
                     asm = [z3.Or(blank(c), z3.And(z3.UGE(c, 97), z3.ULE(c, 122))) for c in cs]
